@@ -5,13 +5,19 @@
    interpreter limit: known finding).  No IndexError / KeyError / AttributeError / AssertionError
    and no fuel exhaustion (the loops terminate).  Also proved: the two documented failure routes
    end in EncoderError; the inputs the property names are rejected with EncoderError.
-   Last stage (proofs/EncFuel.v): after reader and kekulize, no OutOfFuel.  Not proved: crash freedom of kekulisation /
-   matching and of emission beyond fuel; outcome
+   Last stage (proofs/EncFuel.v, EncIndex.v, EncKey.v, EncAttrErr.v, EncOutcomes.v): once the reader and kekulize have
+   returned, encoder() under a table with a '?' entry returns, raises EncoderError (the strict check), or ends in
+   AssertionError / ValueError - and in nothing else: no IndexError (edges end inside the graph and never at their
+   source, roots are atoms, the arrays stay aligned through kekulize, indices are never negative), no KeyError (every
+   ring bond is stored in both directions), no AttributeError (every slot reserved by a ring digit is filled when the
+   reader accepts), no fuel exhaustion (tree bonds lead to larger indices).  The two residual classes are exactly the
+   two internal checks that need invariants not proved here: the two directions of a ring bond carry the same order,
+   and no bond keeps the order 1.5.  Not proved: crash freedom of kekulisation / matching itself; outcome
    classes of implementation and model are compared on malformed input on every run. *)
 From Coq Require Import String List ZArith NArith Bool.
 Import ListNotations.
 From Selfies Require Import Base Generated Atoms Grammar Decoder PySet Matching Smiles Kekulize Encoder
-  IndexSpec IndexCode Reader RoundTrip EncoderFacts PureFacts ParserTotal EncFuel.
+  IndexSpec IndexCode Reader RoundTrip EncoderFacts PureFacts ParserTotal EncFuel EncIndex EncKey EncAttrErr EncOutcomes.
 Local Open Scope string_scope.
 
 Theorem C09_parse_error_is_encoder_error_partial : forall capf s strict attribute,
@@ -55,9 +61,37 @@ Theorem C09_emission_never_out_of_fuel_partial : forall T smiles strict attribut
   encoder T smiles strict attribute = Err e -> e <> OutOfFuel.
 Proof. exact encoder_after_kekulize_no_fuel. Qed.
 
+(* ... nor in IndexError, KeyError (table with '?') or AttributeError *)
+Theorem C09_emission_no_index_error_partial : forall T smiles strict attribute m0 m1 e,
+  smiles_to_mol smiles attribute = Ok m0 -> kekulize m0 = Ok (Some m1) ->
+  encoder T smiles strict attribute = Err e -> e <> IndexError.
+Proof. exact encoder_after_kekulize_no_index_error. Qed.
+
+Theorem C09_emission_no_key_error_partial : forall T smiles strict attribute m0 m1 e,
+  (exists v, assoc (lit "?") T = Some v) ->
+  smiles_to_mol smiles attribute = Ok m0 -> kekulize m0 = Ok (Some m1) ->
+  encoder T smiles strict attribute = Err e -> e <> KeyError.
+Proof. exact encoder_after_kekulize_no_key_error. Qed.
+
+Theorem C09_emission_no_attribute_error_partial : forall T smiles strict attribute m0 m1 e,
+  smiles_to_mol smiles attribute = Ok m0 -> kekulize m0 = Ok (Some m1) ->
+  encoder T smiles strict attribute = Err e -> e <> AttributeError.
+Proof. exact encoder_after_kekulize_no_attribute_error. Qed.
+
+(* assembled: the outcomes of the last stage *)
+Theorem C09_last_stage_outcomes_partial : forall T smiles strict attribute m0 m1 e,
+  (exists v, assoc (lit "?") T = Some v) ->
+  smiles_to_mol smiles attribute = Ok m0 -> kekulize m0 = Ok (Some m1) ->
+  encoder T smiles strict attribute = Err e -> e = EncoderError \/ e = AssertionError \/ e = ValueError.
+Proof. exact encoder_after_kekulize_outcomes. Qed.
+
 Print Assumptions C09_parse_error_is_encoder_error_partial.
 Print Assumptions C09_parser_total_partial.
 Print Assumptions C09_first_stage_outcomes_partial.
 Print Assumptions C09_kekulize_failure_is_encoder_error_partial.
 Print Assumptions C09_named_inputs_partial.
 Print Assumptions C09_emission_never_out_of_fuel_partial.
+Print Assumptions C09_emission_no_index_error_partial.
+Print Assumptions C09_emission_no_key_error_partial.
+Print Assumptions C09_emission_no_attribute_error_partial.
+Print Assumptions C09_last_stage_outcomes_partial.
